@@ -86,9 +86,15 @@ struct Kern {
                         Slot *s = buf(len, place, "crc_buf", r);
                         if (!s)
                                 return false;
-                        uint64_t before = hash_bytes(s->data, len);
                         uint64_t got = 0, want = 0;
                         uint32_t init = (uint32_t) r.u64();
+                        if ((seed & 3) == 0) { // boundary initial values and degenerate data
+                                static const uint32_t edge[] = { 0, 0xffffffffu, 1, 0x80000000u };
+                                init = edge[(seed >> 2) & 3];
+                                if (seed & 16)
+                                        memset(s->data, (seed & 32) ? 0xff : 0, len);
+                        }
+                        uint64_t before = hash_bytes(s->data, len);
                         const char *fn = "";
                         int which = sub % 6;
                         int f = 0;
@@ -153,6 +159,12 @@ struct Kern {
                                 return false;
                         const Crc64Pair &c = crc64s[sub % 8];
                         uint64_t init = r.u64(), got = 0;
+                        if ((seed & 3) == 0) {
+                                static const uint64_t edge[] = { 0, ~0ull, 1, 1ull << 63 };
+                                init = edge[(seed >> 2) & 3];
+                                if (seed & 16)
+                                        memset(s->data, (seed & 32) ? 0xff : 0, len);
+                        }
                         if (GUARDED(gc, got = c.fn(init, s->data, len)))
                                 return fault(c.name);
                         uint64_t want = c.base(init, s->data, len);
